@@ -52,7 +52,7 @@ class NcchCheck(Check):
 
     def gen(self, rng, tier, i):
         d = gen_desc(rng)
-        mode = rng.pick(['normal', 'normal', 'normal', 'assume', 'badseed', 'noseed']) if d['seed'] is not None else \
+        mode = rng.pick(['normal', 'normal', 'normal', 'assume', 'badseed', 'badseed-db', 'noseed']) if d['seed'] is not None else \
             rng.pick(['normal', 'normal', 'assume'])
         return {'desc': d, 'start': rng.pick([0, 0, 0x200, 0x1230]), 'mode': mode, 'seed': rng.getrandbits(32)}
 
@@ -96,6 +96,23 @@ class NcchCheck(Check):
             except Exception:  # noqa
                 pass
             envsetup.reset_seeddb()      # the seed database is process-wide by design; "seed not known" cases need it empty again
+        db_history = False
+        if mode == 'badseed-db':
+            # the wrong seed does not come as an argument but through the seed DATABASE, and after a history: the same container was
+            # opened with its right seed first (so whatever "this title's seed is fine" knowledge the library keeps exists), then a
+            # seeddb file with another seed for this program id is loaded, then the container is opened without a seed argument
+            mode = 'badseed'
+            db_history = True
+            try:
+                b0 = io.BytesIO(file_bytes)
+                b0.seek(start)
+                NCCHReader(b0, crypto=e.CryptoEngine(), seed=desc['seed'], closefd=False, load_sections=False).close()
+            except Exception:  # noqa
+                pass
+            wrong = bytes(x ^ 0x55 for x in desc['seed'])
+            dbfile = (1).to_bytes(4, 'little') + bytes(12) + desc['program_id'].to_bytes(8, 'little') + wrong + bytes(8)
+            sdb.load_seeddb(io.BytesIO(dbfile))
+            seed_arg = None
         base = io.BytesIO(file_bytes)
         base.seek(start)
         eng = e.CryptoEngine()
@@ -120,6 +137,9 @@ class NcchCheck(Check):
                         f' exefs={ex}')
         except Exception as ex_:  # noqa
             outs.append('e:' + exc_name(ex_))
+        if db_history:
+            seed_arg = bytes(x ^ 0x55 for x in desc['seed'])       # what the database now says: the model takes it as the argument
+            info_d['wrong seed through the seed database after a correct open'] = 1
         m = drv.ask(('ncch-open', file_bytes, start, seed_arg if seed_arg is not None else 'none', int(assume), 0, blob))
         # non-vacuity of the one-image theorem of C04: its decidable geometry hypothesis on this image
         if rd is not None:
